@@ -370,3 +370,63 @@ def check_recheck_is_full(ctx, rid, prog):
     ctx.check(rid, bool(stores) and r is None, rod.name, 'recheck:success-without-verdict', rod.loc,
               'every successful return of the re-check has stored the full verdict',
               witness=None if r is None else {'blocks': r[0]})
+
+
+def check_readfile_status(ctx, rid, prog, fnames):
+    """A file that exists but cannot be read is an error, not an empty file: from a DiskInterface / FileReader ReadFile
+    call no path reaches a return that does not report failure unless it took a branch that established "the status is
+    Okay" or "the status is NotFound" (or "not OtherError").  NotFound may be treated as empty; OtherError may not."""
+    from rules import is_success_return
+    n = 0
+    for name in fnames:
+        for f in prog.fns(name):
+            for e in f.events('call'):
+                if (e.get('name') or '').split('::')[-1] != 'ReadFile' or not any(c in (e.get('name') or '') for c in ('DiskInterface', 'FileReader')):
+                    continue
+                n += 1
+
+                def explains(k, p):
+                    return (p is True and ('::Okay' in k or '::NotFound' in k)) or (p is False and '::OtherError' in k)
+                # the part of the function that can be reached without taking an explaining branch
+                r = f.find_path(e, lambda x: is_success_return(prog, f, x), sensitive=False,
+                                edge_ok=lambda b, i, s2, f=f: not any(explains(k, p) for k, p, a in f.edge_facts(b, i)))
+                ctx.check(rid, r is None, f.name, 'ReadFile:error-status-accepted', f.where(e),
+                          'after ReadFile %s goes on only when the status is known to be Okay or NotFound' % f.name,
+                          witness=None if r is None else {'blocks': r[0]})
+    return n
+
+
+def check_pollfd_index(ctx, rid, prog):
+    """SubprocessSet::DoWork: an index into the pollfd array that was taken as "the number of entries so far" names the
+    entry that is pushed next.  For every subscript fds[IDX] with IDX defined as the running count: under the
+    conditions the subscript is used (e.g. jobserver_fd_ >= 0), the first entry pushed after the definition of IDX
+    is the one built from what that use is about; no other entry gets in between."""
+    n = 0
+    for f in prog.fns('SubprocessSet::DoWork'):
+        pushes = [e for e in f.events('call') if (e.get('name') or '').endswith('::push_back') and mentions_var(e.get('recv'), 'fds')]
+        for u in f.events('call'):
+            if not (u.get('op') == '[]' and mentions_var(u.get('recv'), 'fds')):
+                continue
+            idx = strip((u.get('args') or [None])[0])
+            if not (isinstance(idx, dict) and idx.get('k') == 'var' and idx.get('vk') == 'local'):
+                continue
+            decls = [d for d in f.events('decl') if d['n'] == idx['n'] and d.get('init') is not None]
+            if len(decls) != 1 or f.single_def(idx['n']) is None:
+                continue        # a cursor that is advanced (cur_nfd++), not a saved position
+            d = decls[0]
+            n += 1
+            # what the use is conditioned on
+            use_facts = {(k, p) for k, (p, a) in f.facts_at(u).items()}
+            subject = {x['n'] for k, (p, a) in f.facts_at(u).items() for x in walk(a) if x.get('k') == 'mem'}
+
+            def about_subject(e, subject=subject):
+                a = strip((e.get('args') or [None])[0])
+                init = f.single_def(a['n']) if isinstance(a, dict) and a.get('k') == 'var' else a
+                return any(x.get('k') == 'mem' and x['n'] in subject for x in walk(init))
+            mine = [e for e in pushes if about_subject(e)]
+            r = f.find_path(d, lambda x: x in pushes and x not in mine, is_blocker=lambda x: x in mine or x is u, sensitive=False,
+                            edge_ok=lambda b, i, s2: not any((k, not p) in use_facts for k, p, a in f.edge_facts(b, i)))
+            ctx.check(rid, bool(mine) and r is None, f.name, 'pollfd:index-names-another-entry:%s' % idx['n'], f.where(u),
+                      '`%s` (= the number of entries when it was taken) is the position of the entry pushed for %s' % (idx['n'], sorted(subject)),
+                      witness=None if r is None else {'blocks': r[0]})
+    return n
